@@ -35,13 +35,14 @@ func WorkerMain(jobPath string) {
 }
 
 type worker struct {
-	job  Job
-	c    Case
-	tr   *tracker
-	mu   sync.Mutex // guards out
-	out  Outcome
-	done atomic.Bool
-	finishing atomic.Bool
+	job           Job
+	c             Case
+	tr            *tracker
+	mu            sync.Mutex // guards out
+	out           Outcome
+	done          atomic.Bool
+	finishing     atomic.Bool
+	syncPanicMark atomic.Int64 // race log size at the first recovered "sync:" panic, -1 if none
 
 	lastPanic []*PanicInfo // per thread, written only by that thread
 }
@@ -49,6 +50,7 @@ type worker struct {
 func newWorker(job Job) *worker {
 	n := len(job.Case.Threads) + 1 // last slot: the coordinating goroutine (final stop / close)
 	w := &worker{job: job, c: job.Case, tr: newTracker(n), lastPanic: make([]*PanicInfo, n)}
+	w.syncPanicMark.Store(-1)
 	return w
 }
 
@@ -58,6 +60,7 @@ func (w *worker) finish() {
 	}
 	w.mu.Lock()
 	w.out.Done = true
+	w.out.RaceLogCut = w.syncPanicMark.Load()
 	w.out.Peak = int(w.tr.peak.Load())
 	w.out.OpsRun = w.tr.ops.Load()
 	b, _ := json.Marshal(w.out)
@@ -188,9 +191,11 @@ func (w *worker) do(i int, name string, stopLike bool, f func() string) (res str
 	w.tr.begin(i, name, stopLike)
 	defer func() {
 		if p := recover(); p != nil {
-			mark := raceLogSize() // first thing: everything the race detector says from here on is unreliable
-			defer func() { w.lastPanic[i].RaceLogBytes = mark }()
+			mark := raceLogSize() // first thing: after a panic out of a sync primitive the race detector's output is unreliable
 			res = "panic: " + firstLine(fmt.Sprint(p))
+			if strings.HasPrefix(res, "panic: sync:") {
+				w.syncPanicMark.CompareAndSwap(-1, mark)
+			}
 			st := string(debug.Stack())
 			w.lastPanic[i] = &PanicInfo{Thread: i, Op: name, Msg: firstLine(fmt.Sprint(p)), Stack: clip(st, 6000)}
 			if fr := libFramesOfStacks(st); len(fr) > 0 {
@@ -211,7 +216,9 @@ func (w *worker) panicked(i int, res string) {
 	}
 	p.Phase, _ = w.tr.phase.Load().(string)
 	w.mu.Lock()
-	w.out.Panic = p
+	if w.out.Panic == nil {
+		w.out.Panic = p
+	}
 	w.mu.Unlock()
 	w.finish()
 }
